@@ -8,6 +8,7 @@
    UdpEndpoint with failed=true and no conn).  Time is an abstract counter advanced by PTick. *)
 From Coq Require Import List Arith Bool.
 From Dae Require Import C13_Spec C13_Model.
+From Dae.gen Require Import C13_Consts.
 Import ListNotations.
 
 Definition nat_timeout : nat := 3600.        (* the harness passes NatTimeout = 1h; any positive value *)
@@ -48,7 +49,8 @@ Inductive pop :=
 | PInval (d : nat)
 | PReset
 | PSweep
-| PTick (dt : nat).
+| PTick (dt : nat)
+| PRemove (h : nat).          (* UdpEndpointPool.Remove(key the handle was obtained with, handle) *)
 
 Definition fset {A} (f : nat -> A) (k : nat) (v : A) : nat -> A := fun k' => if k' =? k then v else f k'.
 
@@ -203,6 +205,26 @@ Definition ep_goc (s : pstate) (k d g out : nat) : pstate * eres :=
 
 Definition none_res : eres := mkER None false 0.
 
+(* UdpEndpointPool.Remove(key, handle) as its callers use it (udp.go: the key is the one the handle was
+   obtained with, i.e. the endpoint's own pool key).  [chk] = the source compares the pooled endpoint with the
+   handle before deleting (extracted constant remove_checks_identity): when they differ — a stale handle: the
+   endpoint was retired and perhaps replaced meanwhile — only the handle is closed and the pool is left
+   alone.  Without the comparison whatever is pooled under the key is evicted (and not closed). *)
+Definition ep_remove (chk : bool) (s : pstate) (h : nat) : pstate :=
+  match nth_error (p_handles s) h with
+  | None => s
+  | Some e =>
+      match nth_error (p_eps s) e with
+      | None => s
+      | Some u =>
+          if chk
+          then if opt_is (p_pool s (u_key u)) e
+               then ep_close (set_pool s (fset (p_pool s) (u_key u) None)) e
+               else ep_close s e
+          else ep_close (set_pool s (fset (p_pool s) (u_key u) None)) e
+      end
+  end.
+
 Definition pstep (s : pstate) (o : pop) : pstate * eres :=
   match o with
   | PGoc k d g out => ep_goc s k d g out
@@ -257,6 +279,7 @@ Definition pstep (s : pstate) (o : pop) : pstate * eres :=
                              | None => s end) (seq 0 (length (p_eps s))) s, none_res)
   | PTick dt =>
       (mkP (p_pool s) (p_eps s) (p_handles s) (p_epoch s) (p_dials s) (p_tr s) (p_kdel s) (p_drainc s) (p_now s + dt), none_res)
+  | PRemove h => (ep_remove remove_checks_identity s h, none_res)
   end.
 
 Definition prun (ops : list pop) : pstate := fold_left (fun s o => fst (pstep s o)) ops p0.
